@@ -166,7 +166,12 @@ def body(case, ctx):
                             continue
                         block = b.handles[(j,)]
                         content, followers = list(block.decomposed_operations()), list(mine.decomposed_operations())
-                        if (content and followers and min(float(o.start_time) for o in content) >= float(block.start_time) - 1e-9
+                        # (a relation assigned after add() does not move the block in the listing; flatten() works through the
+                        #  listing, so only blocks that are listed behind the block they follow are judged - listing order is C02)
+                        position = {id(o): n for n, o in enumerate(target.operations)}
+                        listed_behind = (content and followers and all(id(o) in position for o in content + followers)
+                                         and max(position[id(o)] for o in content) < min(position[id(o)] for o in followers))
+                        if (listed_behind and min(float(o.start_time) for o in content) >= float(block.start_time) - 1e-9
                                 and min(float(o.start_time) for o in followers) >= float(mine.start_time) - 1e-9):
                             pairs.append((i, followers, content))
                 ops3 = None
